@@ -2051,9 +2051,11 @@ type ioGen struct {
 
 func (g *ioGen) idJ() jv {
 	g.nextID++
-	switch g.r.Intn(6) {
+	switch g.r.Intn(7) {
 	case 0:
 		return jStr(fmt.Sprintf("id-%d", g.nextID))
+	case 6: // mixed case / non-ASCII / long string ids: an id is echoed and matched byte for byte
+		return jStr(fmt.Sprintf("%s#%d", genStr(g.r), g.nextID))
 	case 1:
 		return jInt(1<<52 + g.nextID) // ids beyond 2^53 are the msg/ids streams' business (F1)
 	case 2:
@@ -2089,14 +2091,14 @@ func (g *ioGen) element(used *[]jv) jv {
 			id = (*used)[r.Intn(len(*used))] // duplicate id (malformed batch / id in flight)
 		}
 		*used = append(*used, id)
-		return wireReq(&id, []string{"ping", "tools/call", "x"}[r.Intn(3)], params)
+		return wireReq(&id, []string{"ping", "tools/call", "x", "Tools/Call", "X-Ünï/Σς", "notifications/Progress"}[r.Intn(6)], params)
 	case x < 15: // notification; half of them numbered, so that a reordering inside a batch shows
 		if r.Intn(2) == 0 {
 			g.nextID++
 			seq := jObj(jmem{"seq", jInt(g.nextID)})
 			params = &seq
 		}
-		return wireReq(nil, []string{"notifications/progress", "notifications/initialized", "n"}[r.Intn(3)], params)
+		return wireReq(nil, []string{"notifications/progress", "notifications/initialized", "n", "Notifications/Progress", "N", "ñ/İ"}[r.Intn(6)], params)
 	case x < 18: // response
 		id := g.idJ()
 		res := genJ(r, 1)
@@ -2135,6 +2137,14 @@ func (g *ioGen) frame(used *[]jv) jv {
 		out.a = append(out.a, g.element(used))
 	}
 	return out
+}
+
+// otok2: the value as params (objects and arrays only: what a peer may send), else none
+func otok2(v jv, r *rand.Rand) string {
+	if v.k == 'o' || v.k == 'a' {
+		return v.tok()
+	}
+	return "-"
 }
 
 // runIO drives one ioConn case: feed frames, then read / answer in random order.
@@ -2290,7 +2300,7 @@ func (g *ioGen) run(step stepper) {
 					id := g.pending[j]
 					answered[id] = true
 					g.pending = append(g.pending[:j], g.pending[j+1:]...)
-					ms = append(ms, "resp "+id+" o{ 74657874 s"+hxs(strings.Repeat("payload-", 1+r.Intn(40)))+" } -")
+					ms = append(ms, "resp "+id+" o{ 74657874 s"+hxs(strings.Repeat([]string{"payload-", "PayLoad-Éß", "日本 Text/"}[r.Intn(3)], 1+r.Intn(40)))+" } -")
 					tags = append(tags, "cw:answer")
 				case c < 4:
 					g.nextID++
@@ -2310,7 +2320,7 @@ func (g *ioGen) run(step stepper) {
 		case "other":
 			switch r.Intn(3) {
 			case 0:
-				step("io.write req - s6e6f74696679 -", "write:notification")
+				step("io.write req - s"+hxs([]string{"notify", "Notify/Éß", "N"}[r.Intn(3)])+" "+otok2(genJ(r, 1), r), "write:notification")
 			case 1:
 				step(fmt.Sprintf("io.write req i%d s70696e67 o{ }", 1000+r.Intn(5)), "write:call")
 			default:
@@ -2449,6 +2459,28 @@ func TestVerifWireMcp(t *testing.T) {
 				}
 			}
 		}
+		// capabilities: clone shares nothing mutable (every cell set; then random subsets per case)
+		step = newCase("capabilities-clone")
+		for _, kind := range []string{"client", "server"} {
+			op, tags := genCapsOp(r, kind, true)
+			step(op, tags...)
+			step("caps.clone "+kind, "caps:clone", "caps:"+kind, "caps-cells:0")
+		}
+		// ToolAnnotations: every combination of the four hints x title, under both encodings
+		step = newCase("tool-annotations")
+		for _, compat := range []string{"0", "1"} {
+			for _, dh := range []string{"-", "t", "f"} {
+				for _, ih := range []string{"t", "f"} {
+					for _, oh := range []string{"-", "t", "f"} {
+						for _, rh := range []string{"t", "f"} {
+							for _, title := range []string{"", "Tïtle/İ"} {
+								step(fmt.Sprintf("ann.rt %s %s %s %s %s s%s", compat, dh, ih, oh, rh, hxs(title)), "ann:rt", "ann-compat:"+compat)
+							}
+						}
+					}
+				}
+			}
+		}
 		// the CompleteReference codec: every combination of type x name x uri
 		step = newCase("complete-reference")
 		for _, t := range refTypes {
@@ -2554,7 +2586,7 @@ func TestVerifWireMcp(t *testing.T) {
 			// some generated frames as well
 			{
 				lg := &ioGen{r: verifRng(7711)}
-				for i, n := 0, verifN(24, 400); i < n; i++ {
+				for i, n := 0, verifN(24, 150); i < n; i++ {
 					var used []jv
 					f := lg.frame(&used)
 					live = append(live, fmt.Sprintf("live.io %s %s L%d", []string{"old", "new"}[r.Intn(2)], f.tok(), r.Intn(3)))
@@ -2603,7 +2635,7 @@ func TestVerifWireMcp(t *testing.T) {
 				}
 			}
 		}
-		n := verifN(2500, 35000)
+		n := verifN(2200, 12000)
 		iog := &ioGen{r: r}
 		ftypes, fnames := fuzzTypes()
 		for c := 0; c < n; c++ {
@@ -2721,6 +2753,15 @@ func TestVerifWireMcp(t *testing.T) {
 				step("sse.lines "+ls, ltags...)
 				nd, ndtags := genNdStream(r, iog)
 				step("nd.split "+nd, ndtags...)
+			}
+			if c%4 == 0 {
+				op, tags := genCapsOp(r, []string{"client", "server"}[r.Intn(2)], false)
+				step(op, tags...)
+			}
+			// multi round trip: what the retried request carries
+			{
+				op, tags := genRetry(r)
+				step(op, tags...)
 			}
 			// the CompleteReference codec: a reference through marshal → unmarshal, a JSON value through
 			// unmarshal → marshal
@@ -2894,7 +2935,7 @@ func TestVerifWireBatch(t *testing.T) {
 			}
 		}
 		g := &ioGen{r: r, batchy: true}
-		n := verifN(5000, 80000)
+		n := verifN(5000, 30000)
 		for c := 0; c < n; c++ {
 			g.run(newCase(fmt.Sprintf("b%d", c)))
 		}
